@@ -216,6 +216,21 @@ func (w *world) runCase(id string, c *caseIn, mid int) (jr jobResult) {
 		jr.infra = err.Error()
 		return
 	}
+	// every other header offer is a BATCH of two: the offered header followed by a header that is linked to it and
+	// signed by its designated validators (what a peer's headers message looks like); the follower can only be
+	// recorded if the offered header was
+	var follower *block.Block
+	var followerHash util.Uint256
+	if c.Case.Via == "header" && c.Case.Kind != "valid" && c.seed%2 == 0 && base+1 < len(w.blocks) && m.Hid != "c" {
+		f := clone(w.blocks[base+1])
+		f.PrevHash = blk.Hash()
+		seal(f, w.signer[base+1], w.magic)
+		if raw, err := wire(f); err == nil {
+			if fb, err := unwire(raw, w.srih); err == nil {
+				follower, followerHash = fb, fb.Hash()
+			}
+		}
+	}
 	var oerr error
 	func() {
 		defer func() {
@@ -223,7 +238,9 @@ func (w *world) runCase(id string, c *caseIn, mid int) (jr jobResult) {
 				jr.panicked = fmt.Sprint(p)
 			}
 		}()
-		if c.Case.Via == "header" {
+		if c.Case.Via == "header" && follower != nil {
+			oerr = n.bc.AddHeaders(&blk.Header, &follower.Header)
+		} else if c.Case.Via == "header" {
 			oerr = n.bc.AddHeaders(&blk.Header)
 		} else {
 			oerr = n.bc.AddBlock(blk)
@@ -256,12 +273,13 @@ func (w *world) runCase(id string, c *caseIn, mid int) (jr jobResult) {
 	}
 	ev := map[string]any{"event": "offer", "id": id, "src": map[bool]string{true: "rand", false: "table"}[c.rand], "via": c.Case.Via,
 		"state": c.Case.State, "srih": w.srih, "vt": w.vt, "kind": c.Case.Kind, "family": c.Case.Family, "world": w.id, "h": h, "first_step": first,
-		"pre":   map[string]any{"blkH": int(before.blkH), "hdrs": n.ids(before, offered)},
+		"batch": follower != nil,
+		"pre":   map[string]any{"blkH": int(before.blkH), "hdrs": n.ids(before, offered, followerHash)},
 		"attrs": m, "decl": decl, "acc": acc, "err": errClass(oerr), "msg": msg,
 		"pred": map[string]any{"acc": c.Pred.Acc, "stage": c.Pred.Stage, "hdr": c.Pred.Hdr, "has": !c.rand && c.Dec == "ok",
 			"alt_acc": c.PredDesign.Acc, "alt_hdr": c.PredDesign.Hdr},
 		"obs": map[string]any{"blk_plus": int(after.blkH) - int(before.blkH), "tip_is_offer": after.tip == offered,
-			"hdrs_after": n.ids(after, offered), "led_changed": ledDiff(before, after), "pool_changed": before.pool != after.pool,
+			"hdrs_after": n.ids(after, offered, followerHash), "led_changed": ledDiff(before, after), "pool_changed": before.pool != after.pool,
 			"db_changed": dbDiff(before.db, after.db, offered), "ref_equal": refEq, "pool_size": n.pooled}}
 	jr.events = append(jr.events, ev)
 	if acc && c.Case.Via == "block" {
